@@ -620,7 +620,12 @@ func (interp *Interpreter) stop() {
 		atomic.StoreUint32(&run.cancelled, 1)
 	}
 	atomic.AddUint64(&interp.id, 1)
+	interp.mutex.Lock()
 	close(interp.done)
+	// The frames of the cancelled evaluation keep the closed channel. What is
+	// evaluated from now on, with or without context, is not cancelled.
+	interp.done = make(chan struct{})
+	interp.mutex.Unlock()
 }
 
 func (interp *Interpreter) runid() uint64 { return atomic.LoadUint64(&interp.id) }
